@@ -76,6 +76,9 @@ type c17Value struct {
 	seacPFA []byte // hand-made font file with (nested) seac composites, for the reader
 	metrics *afm.Metrics
 	cmap    []byte
+	// programs whose result shows the order in which forall enumerates a dictionary
+	orderProg string
+	orderCMap []byte
 }
 
 func genC17Value(c *rt.C, quick bool) c17Value {
@@ -133,6 +136,17 @@ func genC17Value(c *rt.C, quick bool) c17Value {
 		}
 	}
 	v.cmap = ref.RenderFile(rng, maps)
+	// dictionary enumeration: the PLRM leaves the order open, but it has to be
+	// the same every time
+	var db strings.Builder
+	db.WriteString("<< ")
+	for i, n := 0, 2+rng.IntN(12); i < n; i++ {
+		fmt.Fprintf(&db, "/%s%d %d ", []string{"K", "a", "Zz", "k"}[rng.IntN(4)], rng.IntN(1000), i)
+	}
+	db.WriteString(">> ")
+	v.orderProg = db.String() + []string{"{ } forall", "{ pop } forall", "{ exch pop } forall", "{ pop exit } forall", "{ exch pop dup 3 eq { exit } if } forall"}[rng.IntN(5)]
+	v.orderCMap = []byte("%!PS-Adobe-3.0 Resource-CMap\n/CIDInit /ProcSet findresource begin 12 dict begin begincmap\n/CMapName " + db.String() +
+		"{ pop exit } forall def\n/WMode " + db.String() + "{ exch pop exit } forall def\n1 begincodespacerange <00> <ff> endcodespacerange endcmap\nCMapName currentdict /CMap defineresource pop end end\n")
 	// a font file with seac composites, including a composite of a composite
 	mf := genModelFontOpt(rng, true)
 	mf.lay.Container = "pfa"
@@ -177,6 +191,16 @@ func c17Digests(v c17Value) []string {
 		dg.dict(d)
 		out = append(out, fmt.Sprintf("ReadCMap name=%v %s", d["CMapName"], sha([]byte(dg.sb.String()))))
 	}
+	intp := postscript.NewInterpreter()
+	intp.MaxOps = 100000
+	err = intp.ExecuteString(v.orderProg)
+	dg := newLibDigester(nil)
+	for _, o := range intp.Stack {
+		dg.obj(o)
+	}
+	out = append(out, fmt.Sprintf("Execute/forall-over-dict %s err=%v", sha([]byte(dg.sb.String())), err))
+	d, err = postscript.ReadCMap(bytes.NewReader(v.orderCMap))
+	out = append(out, fmt.Sprintf("ReadCMap/forall-over-dict name=%v wmode=%v err=%v", d["CMapName"], d["WMode"], err))
 	return out
 }
 
